@@ -373,6 +373,7 @@ def rpe_cli(run, case, rng, work):
         unit = ["mm", "cm", "m", "km", "deg", "rad"][rng.integers(6)]
         argv += ["--change_unit", unit]
     argv += ["--save_results", "out.zip", "--no_warnings"]
+    argv = C01.group_short_flags(rng, argv, o, force=case.get("group"))
     if rng.random() < .2:
         argv = C01.move_to_config(rng, argv, work, 3)
     dict.__setitem__(settings.SETTINGS, "save_traj_in_zip", True)
@@ -569,6 +570,10 @@ def main(run):
         k_cli(run, run.case("cli", i))
     for i in run.mine({"quick": 8, "thorough": 160}[run.tier]):
         k_cli(run, run.case("cli", 10**6 + i, real=True))
+    for i in run.mine({"quick": 36, "thorough": 360}[run.tier]):
+        g = C01.GROUPS[i % len(C01.GROUPS)]
+        k_cli(run, run.case("cli", 3 * 10**6 + i, group=g, force_all_pairs=False, force_unit="fm"[(i // len(C01.GROUPS)) % 2],
+                            force_options=(["align"] if "a" in g else []) + (["scale"] if "s" in g else [])))
     run.need("reported timestamps are the stamps of the pair end poses, one per value", "concurrent rounds: RPE evaluation", "RPE: value == definition on its pair", "RPE: one value per selected pair",
              "RPE: pair end indices match the values in length and order",
              "RPE: unequal lengths refused", "RPE invariant under independent rigid motions",
